@@ -52,6 +52,7 @@ struct ReaderGroup {
 pub struct ReadCursor {
     readers: AtomicPtr<ReaderGroup>,
     pub last_pos: Cell<usize>,
+    wrap: Index,
 }
 
 impl<'a> ReadAttempt<'a> {
@@ -223,6 +224,7 @@ impl ReadCursor {
                 ReadCursor {
                     readers: AtomicPtr::new(real_group),
                     last_pos: Cell::new(0),
+                    wrap,
                 },
                 reader,
             )
@@ -237,6 +239,14 @@ impl ReadCursor {
                 crate::verif_hooks::touch(first_ptr as usize, "ReaderGroup dereference in get_max_diff");
                 let rg = &*first_ptr;
                 let rval = rg.get_max_diff(cur_writer);
+                // With no stream left nobody will ever consume: report the ring as full
+                // instead of empty, so that a sender racing the last receiver's drop
+                // cannot overwrite values that were never read
+                let rval = if rg.readers.is_empty() {
+                    Some(self.wrap)
+                } else {
+                    rval
+                };
                 // This check ensures that the pointer hasn't changed
                 // We must first read the diff, *and then* check the pointer
                 // for changes.
